@@ -230,6 +230,13 @@ def named_family():
     out.append(["null", ping])
     out.append([copy.deepcopy(ping), "string", copy.deepcopy(alld)])
     out.append(rec("R", ["null", copy.deepcopy(alld)], {"type": "array", "items": ["int", copy.deepcopy(ping)]}))
+    # null-namespace types nested in a namespaced record, below a NON-record top level (a pre-parsed array/map is parsed again)
+    shop = {"type": "record", "name": "Order", "namespace": "shop", "fields": [
+        {"name": "item", "type": {"type": "record", "name": "Item", "namespace": "", "fields": [
+            {"name": "kind", "type": {"type": "enum", "name": "Kind", "namespace": "", "symbols": ["A", "B"]}}, {"name": "k2", "type": "Kind"}]}},
+        {"name": "n", "type": "int", "default": 1}]}
+    out.append({"type": "array", "items": copy.deepcopy(shop)})
+    out.append({"type": "map", "values": ["null", copy.deepcopy(shop)]})
     # {"type": "int"}-style wrapped primitives
     out.append(rec("R", {"type": "int"}, {"type": "string"}, {"type": "null"}))
     out.append({"type": "array", "items": {"type": "long"}})
